@@ -6,10 +6,10 @@ import Model.Base.Bytes
 namespace Fmt.Name
 open Bytes
 
-def slash : UInt8 := 47
-def dash : UInt8 := 45
-def eqc : UInt8 := 61
-def star : UInt8 := 42
+abbrev slash : UInt8 := 47
+abbrev dash : UInt8 := 45
+abbrev eqc : UInt8 := 61
+abbrev star : UInt8 := 42
 
 /-- The backwards scan of `splitGomaxprocs`: `rev` is the not yet visited prefix, reversed;
 `suf` the already visited suffix (all digits). -/
